@@ -213,6 +213,14 @@ def render_prog(rules, style=None):
 
 # --------------------------------------------------------------------------- running the implementation
 
+# clasp's equivalence preprocessing is not reliable in multi-shot solving with free externals and disjunctions: with the
+# default `--eq` the incremental run of a correct ground program lists answer sets twice
+# (corpus/clasp_duplicate_free_external.py) and, for `#program dynamic. p(X) | q(X) :- _p(X), not ''p, d(X).` next to a
+# final-part rule with `&tel`, reports 28 answer sets with an unsupported atom while the same ground program solved in one
+# shot — or incrementally with `--eq=0` — gives the right ones (DESIGN §11.13).  The solver is trusted base, not the subject:
+# the in-process harness switches that preprocessing off; VERIF_CLASP_EQ=default restores clasp's default.
+SOLVER_OPTS = [] if os.environ.get("VERIF_CLASP_EQ") == "default" else ["--eq=0"]
+
 class Timeout(Exception):
     pass
 
@@ -239,7 +247,7 @@ def sym_key(sym):
     return (str(clingo.Function(sym.name, sym.arguments[:-1], sym.positive)), last.number)
 
 def run_telingo(texts, H, all_atoms=False, keep_aux=False, imin=None, imax=None, istop="SAT",
-                limit=30.0, max_models=0, record=None):
+                limit=30.0, max_models=0, record=None, solver_opts=None):
     """
     Run the real telingo up to horizon H (inclusive).  `texts`: a string or list of strings (files).
     Returns {h: sorted list of models}, a model = tuple of sorted "atom@k" strings.
@@ -252,7 +260,7 @@ def run_telingo(texts, H, all_atoms=False, keep_aux=False, imin=None, imax=None,
         texts = [texts]
     res = {}
     with time_limit(limit):
-        prg = clingo.Control([str(max_models)], message_limit=0, logger=lambda c, m: None)
+        prg = clingo.Control([str(max_models)] + (SOLVER_OPTS if solver_opts is None else list(solver_opts)), message_limit=0, logger=lambda c, m: None)
         with ProgramBuilder(prg) as bld:
             fs, parts = tf.transform(list(texts), bld.add)
         def om(m, step):
